@@ -408,6 +408,53 @@ func fixedGroups(c *collector) {
 	}
 }
 
+// SetEnum of a MULTIPLEXED enum signal with a follower, then edits of the PREVIOUS enum (which must not touch
+// the signal any more) and of the new one (which must): AddValue with a bigger index, UpdateIndex up and down.
+func setEnumInMux(c *collector) {
+	n := 0
+	for _, attachedTo := range []int{0, 1} {
+		for _, gap := range []int{0, 1, 3} {
+			for _, oldMax := range []int{1, 7} { // the previous enum: 1 or 3 bits
+				for _, newMax := range []int{1, 7} { // the new enum
+					for variant := 0; variant < 4; variant++ {
+						var ops []op
+						if attachedTo == 1 {
+							ops = append(ops, mk("newmsg", 0, 0, 8))
+						}
+						ops = append(ops, mk("newmux", 2, 0, 16), // signal 0
+							op{k: "newenum"}, op{k: "newenum"}, mk("addvalue", 0, 0, oldMax), mk("addvalue", 1, 0, newMax),
+							mk("newenumsig", 0, 0, 0), // signal 1 = X, references enum 0
+							mk("newstd", 0, 0, 2))     // signal 2 = F, the follower
+						if attachedTo == 1 {
+							ops = append(ops, mk("append", 0, 0, 0))
+						}
+						xs := 1
+						if oldMax == 7 {
+							xs = 3
+						}
+						ops = append(ops, op{k: "muxinsert", a: 0, b: 1, z: 0, gids: []int{0}},
+							op{k: "muxinsert", a: 0, b: 2, z: xs + gap, gids: []int{0}},
+							mk("setenum", 1, 1, 0))
+						switch variant {
+						case 0: // the previous enum grows, then the new one
+							ops = append(ops, mk("addvalue", 0, 0, 31), mk("addvalue", 1, 0, 15))
+						case 1: // the previous enum shrinks (its only value gets a small index), then grows again
+							ops = append(ops, mk("updateindex", 0, 0, 0), mk("addvalue", 0, 0, 63), mk("updateindex", 1, 0, 3))
+						case 2: // the new enum first, then the previous one
+							ops = append(ops, mk("addvalue", 1, 0, 31), mk("updateindex", 0, 0, 255), mk("updateindex", 1, 0, 0))
+						case 3: // back and forth
+							ops = append(ops, mk("setenum", 1, 0, 0), mk("addvalue", 1, 0, 31), mk("addvalue", 0, 0, 15), mk("setenum", 1, 1, 0), mk("updateindex", 0, 0, 0))
+						}
+						ops = append(ops, mk("muxshr", 0, 2, 1), mk("settype", 2, 0, 1))
+						n++
+						c.add(replay(ops, true), "setenum-mux", fmt.Sprintf("setenum-mux-%d", n))
+					}
+				}
+			}
+		}
+	}
+}
+
 // histories kept from earlier findings (always run first)
 var corpus = map[string][]string{
 	"c01": {
@@ -531,6 +578,7 @@ func main() {
 	growGaps(c)
 	d36Family(c)
 	fixedGroups(c)
+	setEnumInMux(c)
 
 	nRandom, nOps, depth := 400, 30, 3
 	if mode == "c07" {
